@@ -322,7 +322,16 @@ def unit_cache_io(tier):
     u = Unit('C16.cache_io')
     rec = {}
     u.lib['builtins.open'] = lambda i, l, p, mode='r': (rec.setdefault('open', []).append((p, mode)) or SObj('File', path=p, mode=mode))
-    u.lib['pickle.load'] = lambda i, l, f: (rec.setdefault('load', []).append(f) or SObj('Loaded', file=f))
+    # the unpickled object: its stored attributes are opaque values; any assignment to one of them is recorded (SObj._writes)
+    u.lib['pickle.load'] = lambda i, l, f: (rec.setdefault('load', []).append(f) or SObj('Loaded', file=f, **{a_: SObj('Opaque', of=('stored', a_)) for a_ in (
+        'coords', 'base_positions', 'species', 'lattice', 'time_step', 'metadata', 'coords_are_displacement', 'constant_lattice', 'site_properties', 'frame_properties')}))
+    prev_sub = u.subscript_hook
+
+    def subscript_hook(interp, base, idx, line):
+        if isinstance(base, SObj) and base._cls == 'Opaque':
+            return SObj('Opaque', of=('item', base, idx))
+        return prev_sub(interp, base, idx, line)
+    u.subscript_hook = subscript_hook
     u.lib['pickle.dump'] = lambda i, l, o, f: (rec.setdefault('dump', []).append((o, f)) or None)
 
     def setup_from(interp):
@@ -331,8 +340,10 @@ def unit_cache_io(tier):
 
     def post_from(interp, st, res):
         ok = rec.get('open') == [('x.cache', 'rb')] and len(rec.get('load', [])) == 1 and isinstance(res, SObj) and res._cls == 'Loaded' and res.get('file').get('path') == 'x.cache'
-        return [('returns pickle.load of the cache path opened for binary reading', z3.BoolVal(bool(ok))), ('writes nothing', z3.BoolVal(not rec.get('dump')))]
-    u.prove_function('gemdat.trajectory', 'Trajectory.from_cache', setup_from, post_from, raises=())
+        return [('returns pickle.load of the cache path opened for binary reading', z3.BoolVal(bool(ok))), ('writes nothing', z3.BoolVal(not rec.get('dump'))),
+                ('the stored object is returned as it was stored (no attribute of it is reassigned)', z3.BoolVal(isinstance(res, SObj) and not res._writes))]
+    u.prove_function('gemdat.trajectory', 'Trajectory.from_cache', setup_from, post_from, raises=(),
+                     replay={'fn': 'verif.props.c16:replay_cache', 'sizes': lambda st: [], 'concretise': lambda m, st, ob: {'seed': 1, 'stride': 97}})
 
     def setup_to(interp):
         rec.clear()
@@ -407,6 +418,20 @@ def replay_cache(inputs):
         ref.to_cache(explicit)
         if not _same(Trajectory.from_cache(explicit), ref):
             bad.append('explicit to_cache/from_cache round trip differs')
+        # the same for a trajectory that was used for a displacement analysis before it was saved (held in displacement mode), and for one whose
+        # first frame lies outside the unit cell
+        import numpy as np
+        moved = Trajectory.from_lammps(**kw)
+        _ = moved.displacements
+        moved.to_cache(d / 'disp.cache')
+        if not _same(Trajectory.from_cache(d / 'disp.cache'), ref):
+            bad.append('round trip of a trajectory saved in displacement mode differs')
+        out = Trajectory(species=list(ref.species), coords=np.asarray(ref.positions) + np.array([2.0, -1.0, 3.0]), lattice=ref.get_lattice().matrix,
+                         time_step=ref.time_step, metadata=dict(ref.metadata or {}))
+        out.to_cache(d / 'out.cache')
+        back = Trajectory.from_cache(d / 'out.cache')
+        if not _same(back, ref) or not np.allclose(back.cumulative_displacements, ref.cumulative_displacements):
+            bad.append('round trip of a trajectory whose first frame lies outside the unit cell differs')
         # truncation at prefix lengths, empty, garbage, foreign pickle; repeated fault/recover cycles
         import pickle
         faults = [blob[:k] for k in range(0, len(blob), stride)] + [b'', b'garbage-not-a-pickle' * 3, blob[:-1], pickle.dumps({'not': 'a trajectory'})[:5]]
